@@ -117,6 +117,15 @@ def step_coq(prop_file, timeout=900):
         for m in FORBIDDEN.finditer(nocom):
             # Variables inside Sections are not used in this development at all: forbid everywhere
             forbidden.append("%s: %s" % (f, m.group(0)))
+        # `Context` declares an axiom when used outside a section: allow it only between Section .. End
+        depth = 0
+        for tok in re.finditer(r"^\s*(Section|Module|End|Context)\b", nocom, flags=re.M):
+            if tok.group(1) == "Section":
+                depth += 1
+            elif tok.group(1) == "End":
+                depth = max(0, depth - 1)
+            elif tok.group(1) == "Context" and depth == 0:
+                forbidden.append("%s: Context outside a section" % f)
     ok = rc == 0
     failed_at = None
     assumptions = ""
